@@ -1083,6 +1083,33 @@ class PyCdlib:
                                       dir_record)
                 offset += lenbyte
 
+                # The System Use entries that did not fit into the record are
+                # in its Continuation Area; what kind of record this is (a
+                # symlink, the placeholder of a relocated directory) may only
+                # be said there, so read it before looking.
+                if new_record.rock_ridge is not None and new_record.rock_ridge.dr_entries.ce_record is not None:
+                    ce_record = new_record.rock_ridge.dr_entries.ce_record
+                    orig_pos = cdfp.tell()
+                    self._seek_to_extent(ce_record.bl_cont_area)
+                    cdfp.seek(ce_record.offset_cont_area, os.SEEK_CUR)
+                    con_block = self._read_from_iso(ce_record.len_cont_area)
+                    new_record.rock_ridge.parse(con_block, False,
+                                                new_record.rock_ridge.bytes_to_skip,
+                                                True, new_record.file_identifier())
+                    cdfp.seek(orig_pos)
+                    # The entries that identify the Rock Ridge version may
+                    # have been in the Continuation Area.
+                    rr = new_record.rock_ridge.rr_version
+                    if not (dir_record.is_root and new_record.is_dot()):
+                        # The Continuation Area of the root 'dot' record (the
+                        # ER sector) always gets an extent of its own when
+                        # extents are assigned, so it must not also be tracked
+                        # as one of the shared Continuation Blocks.
+                        block = self.pvd.track_rr_ce_entry(ce_record.bl_cont_area,
+                                                           ce_record.offset_cont_area,
+                                                           ce_record.len_cont_area)
+                        new_record.rock_ridge.update_ce_block(block)
+
                 # Cache some properties of this record for later use.
                 is_symlink = new_record.is_symlink()
                 dots = new_record.is_dot() or new_record.is_dotdot()
@@ -1146,29 +1173,6 @@ class PyCdlib:
                         # size is wrong.  Set the lastbyte appropriately, which
                         # will eventually be used to fix the PVD size.
                         lastbyte = max(lastbyte, new_end)
-
-                if new_record.rock_ridge is not None and new_record.rock_ridge.dr_entries.ce_record is not None:
-                    ce_record = new_record.rock_ridge.dr_entries.ce_record
-                    orig_pos = cdfp.tell()
-                    self._seek_to_extent(ce_record.bl_cont_area)
-                    cdfp.seek(ce_record.offset_cont_area, os.SEEK_CUR)
-                    con_block = self._read_from_iso(ce_record.len_cont_area)
-                    new_record.rock_ridge.parse(con_block, False,
-                                                new_record.rock_ridge.bytes_to_skip,
-                                                True, new_record.file_identifier())
-                    cdfp.seek(orig_pos)
-                    # The entries that identify the Rock Ridge version may
-                    # have been in the Continuation Area.
-                    rr = new_record.rock_ridge.rr_version
-                    if not (dir_record.is_root and new_record.is_dot()):
-                        # The Continuation Area of the root 'dot' record (the
-                        # ER sector) always gets an extent of its own when
-                        # extents are assigned, so it must not also be tracked
-                        # as one of the shared Continuation Blocks.
-                        block = self.pvd.track_rr_ce_entry(ce_record.bl_cont_area,
-                                                           ce_record.offset_cont_area,
-                                                           ce_record.len_cont_area)
-                        new_record.rock_ridge.update_ce_block(block)
 
                 self._set_rock_ridge(rr)
 
